@@ -382,6 +382,18 @@ func main() {
 			os.WriteFile(filepath.Join(root, "evidence", id+".json"), append(data, '\n'), 0o644)
 		}
 	}
+	// scratch files of this run (test binary, shard outputs, alternative module files)
+	if os.Getenv("VERIF_KEEP_BUILD") == "" {
+		pid := fmt.Sprint(os.Getpid())
+		if ents, err := os.ReadDir(bdir); err == nil {
+			for _, e := range ents {
+				n := e.Name()
+				if strings.Contains(n, "."+pid+".") || strings.Contains(n, "-"+pid+".") {
+					os.Remove(filepath.Join(bdir, n))
+				}
+			}
+		}
+	}
 	for _, k := range dedup(knownConfirmed) {
 		fmt.Printf("KNOWN-FINDING: property=%s %s\n", id, k)
 	}
